@@ -266,7 +266,10 @@ def parse_sources(ck):
     srcs = []
     opens = ["{% if x %}", "{% unless x %}", "{% for i in x %}", "{% case x %}", "{% capture v %}", "{% tablerow i in x %}", "{% ifchanged %}",
              "{% comment %}", "{% raw %}", "{% macro m %}", "{% block b %}", "{% with a: 1 %}", "{% liquid if x", "{% case %}", "{% case x %}{% when %}",
-             "{% if %}", "{% for %}", "{{", "{%", "{% if x %}{% else %}{% else %}", "{% case x %}{% else %}{% else %}"]
+             "{% if %}", "{% for %}", "{{", "{%", "{% if x %}{% else %}{% else %}", "{% case x %}{% else %}{% else %}",
+             # unterminated conditionals with EXTRANEOUS sections (the lax-mode skip loops of if and unless are separate copies)
+             "{% unless x %}{% else %}{% else %}", "{% unless x %}a{% else %}b{% elsif y %}c", "{% if x %}a{% else %}b{% elsif y %}c",
+             "{% unless x %}a{% elsif y %}b{% else %}c{% else %}d", "{% if x %}a{% elsif y %}b{% else %}c{% else %}d"]
     for o in opens:  # unterminated blocks, alone, repeated, and nested to and beyond the nesting limit
         for k in (1, 2, 5, 29, 30, 31, 60, 200):
             srcs.append(o * k)
